@@ -55,6 +55,9 @@ type Spec struct {
 	HarnessDir string `json:"harness_dir"` // /verif/harness
 	Tags       string `json:"tags"`
 	Jobs       []Job  `json:"jobs"`
+	// ExtraOverlay maps a source path (e.g. a file of a dependency in the module
+	// cache) to a replacement file: the native-interception hooks (DESIGN 4.2).
+	ExtraOverlay map[string]string `json:"extra_overlay"`
 }
 
 type Out struct {
@@ -133,6 +136,13 @@ func main() {
 				}
 			}
 		}
+	}
+	for virt, real := range spec.ExtraOverlay {
+		src, err := os.ReadFile(real)
+		if err != nil {
+			fatal(err)
+		}
+		overlay[virt] = src
 	}
 	cfg := &packages.Config{Mode: packages.LoadAllSyntax, Dir: spec.RepoDir,
 		Env:     append(os.Environ(), "GOFLAGS=-mod=mod", "GOPROXY=off", "GOSUMDB=off", "GOTOOLCHAIN=local"),
